@@ -43,6 +43,11 @@ def build(rng, profile="full", **kw):
         v = rng.randint(0, 3)
         for b in blocks:
             b["nrexcl"] = v
+    if kw.get("three_levels") and len(blocks) >= 3 and rng.random() < 0.6:
+        lv = list(rng.choice([(1, 2, 3), (0, 2, 3), (0, 1, 3), (0, 1, 2)]))
+        rng.shuffle(lv)
+        for b, v in zip(blocks, lv):
+            b["nrexcl"] = v
     single = {b["name"]: b for b in blocks}
     links = []
     opts = dict(kw.get("link_opts", {}))
@@ -108,11 +113,24 @@ def build(rng, profile="full", **kw):
                          start=kw.get("start"))
     if multi is not None:
         _splice_multi(rng, graph, multi)
-    spec = {"blocks": blocks, "links": spec_links}
+    spec = {"blocks": blocks, "links": spec_links, "explicit": []}
+    ff_extra = ""
+    if kw.get("p_explicit", 0) and rng.random() < kw["p_explicit"] and have_ff and multi is None:
+        bd = {b["name"]: b for b in blocks}
+        natoms = sum(len(bd[n["resname"]]["atoms"]) for n in graph["nodes"])
+        if natoms >= 4 and not any(a["remove"] for l in links for a in l["atoms"].values()):
+            i = rng.randrange(1, natoms - 1)
+            j = rng.randrange(i + 2, natoms + 1) if i + 2 <= natoms else None
+            if j:
+                params = ["1", "%.3f" % rng.uniform(0.3, 0.5), str(rng.randint(100, 999))]
+                spec["explicit"].append({"sec": "bonds", "atoms": [i, j], "params": params})
+                extra = "[ link ]\n[ molmeta ]\nby_atom_id true\n[ bonds ]\n%d %d %s\n" % (i, j, " ".join(params))
+                files = [(n, (t + extra) if n == "case.ff" else t) for n, t in files]
+                ff_extra = extra
     descr = {"layout": layout, "blocks": [(b["name"], b["syntax"], len(b["atoms"]), b["nrexcl"]) for b in blocks],
              "n_links": len(links), "dangling": dangling_blocks, "graph": RG.describe(graph)}
     return {"spec": spec, "files": files, "inpath": inpath, "graph": graph, "descr": descr, "layout": layout,
-            "ff_links": links}
+            "ff_links": links, "ff_extra": ff_extra}
 
 
 def _path_interactions(rng, b, pairs=True):
